@@ -888,6 +888,7 @@ def run_case(case, ctx):
     for t in gen.topo_tags(m) | model_features(m, R):
         ctx.feature(t)
     ctx.feature("individuals-layout:" + layout)
+    ctx.feature("gen:" + case["gen"])
     for s in R.sites:
         if len(s["states"]) >= 8:
             ctx.feature(f"site-with-{len(s['states'])}-alleles")
